@@ -1,6 +1,6 @@
 """C01 All VM configurations compute the same hash."""
 import astq
-from rules import a64hsem, aes, argon, cgsize, driver, dsinit, jit, jitcross, portable, rv64, rvhsem, spec, sshash, vmcfg, x86hsem, rtpreserve, aeshw, x86loop, a64sem, a64dsread, rvdsread, a64fp, rvfp
+from rules import a64hsem, aes, argon, cgsize, driver, dsinit, jit, jitcross, portable, rv64, rvhsem, spec, sshash, vmcfg, x86hsem, rtpreserve, aeshw, x86loop, a64sem, a64dsread, rvdsread, a64fp, rvfp, cfrcross
 
 LEVEL = 'other'
 TECHNIQUE = ('exhaustive flag-to-class dispatch check, frozen-table check of every dataset-address composition site, per-engine v1/v2 gate enumeration, abstract interpretation of the hand-written dataset-read fragments, sibling agreement rules of C04 / C08 / C10 / C12'
@@ -36,6 +36,8 @@ EXPLANATION += ' X86-DSITEM.'
 EXPLANATION += ' A64-FP-HSEM.'
 
 EXPLANATION += ' RV-FP-HSEM.'
+
+EXPLANATION += ' A64-CFR-BITS, RV-CFR-BITS.'
 
 
 def run(ctx, R):
@@ -97,3 +99,5 @@ def run(ctx, R):
     x86loop.rule_dsitem(ctx, R)
     a64fp.rule_fp_hsem(ctx, R)
     rvfp.rule_fp_hsem(ctx, R)
+    cfrcross.rule_a64(ctx, R)
+    cfrcross.rule_rv(ctx, R)
